@@ -30,6 +30,7 @@ ASSUMPTIONS = [
 MIN_NONTRIVIAL_FRACTION = 0.2
 RULE += " Added after the seeded rounds: " + 'A second call on the same loop / swarm / nucleus must respect the same bound; generators and workers raise one of 16 exception types.'
 RULE += " The provider's text replies are generated (blank, whitespace-only, error-looking, literal)."
+RULE += ' The judged call may be preceded by 1, 20 or 70 earlier calls on the same object (bounded internal logs). Stub exceptions are recognised by identity, not by message (they may carry none).'
 EXHAUSTIVE_NOTE = {"quick": "heal: 5 limits x scripts of length 1..3 over 6 behaviours (1290); swarm: 5x5 limits x worker scripts length 1..2 over 4 behaviours (500); tools: 5 limits x round scripts length 1..2 over 5 round kinds x auto (300)",
                    "thorough": "same finite sub-domains, complete"}
 
@@ -42,7 +43,8 @@ TEXTS = ["final", "final", "", " ", "\n", "Error: rate limited", "None", "{}"]
 
 
 def strategy(tier):
-    again = st.sampled_from([False, False, True])
+    # earlier calls on the same object before the judged one: none, one, or many (bounded internal logs fill up over a long life)
+    again = st.sampled_from([False, False, False, True, True, 20, 70])
     exc = st.integers(0, 15)
     heal = st.fixed_dictionaries({"kind": st.just("heal"), "again": again, "exc": exc, "max_retries": st.integers(0, 4),
                                   "script": st.lists(st.sampled_from(GEN + ["invalid", "fresh-invalid"]), min_size=1, max_size=6)})
@@ -80,6 +82,17 @@ def enumerate_cases(tier):
             for script in itertools.product(range(len(ROUNDS)), repeat=n):
                 for auto in (True, False):
                     yield {"kind": "tools", "max_iter": mi, "auto": auto, "rounds": [ROUNDS[k] for k in script]}
+
+
+def _ours(e, thrown):
+    """is `e` (or what it was raised from) one of the exceptions the stub callbacks threw?  (by identity: they may carry no message)"""
+    seen = 0
+    while e is not None and seen < 8:
+        if any(e is t for t in thrown):
+            return True
+        e = e.__cause__ or e.__context__
+        seen += 1
+    return False
 
 
 def judge(case):
@@ -124,13 +137,16 @@ def _heal(case, out):
     mr = case["max_retries"]
     calls = []
 
+    thrown = []
+
     def gen(prompt, error_context=None):
         k = len(calls)
         calls.append(error_context)
         b = script[k % len(script)]
         if b == "raise":
             from pbt.props._exc import make
-            raise make(case.get("exc", 0), "generator crashed")
+            thrown.append(make(case.get("exc", 0), "generator crashed"))
+            raise thrown[-1]
         if b == "valid":
             return '{"name": "n%d", "value": %d}' % (k, k)
         if b == "invalid":
@@ -162,8 +178,8 @@ def _heal(case, out):
 
     loop = ChaperoneLoop(generator=gen, chaperone=DistinctErrors() if len(script) % 2 == 0 else real, schema=schema, max_retries=mr, silent=True)
     out.label("heal")
-    if case.get("again"):
-        # an earlier heal() on the same loop object must not eat into (or extend) the budget of the next one
+    for _w in range(int(case.get("again") or 0)):
+        # earlier heal() calls on the same loop object must not eat into (or extend) the budget of the next one
         try:
             loop.heal("warm-up")
         except Exception:
@@ -173,7 +189,7 @@ def _heal(case, out):
     try:
         res = loop.heal("make a quote")
     except Exception as e:
-        if "generator crashed" in str(e):
+        if _ours(e, thrown):
             out.label("generator-exception-propagated")
             if len(calls) > mr + 1:
                 out.fail("heal:too-many-generator-calls", "%d generator calls with max_retries=%d" % (len(calls), mr), {"case": case})
@@ -239,6 +255,7 @@ def _accepts_silent(cls):
 def _swarm(case, out):
     from operon_ai.healing.regenerative_swarm import RegenerativeSwarm, SimpleWorker
     workers = case["workers"]
+    thrown = []
     factory_calls = []
     steps = {}
     produced = set()
@@ -256,7 +273,8 @@ def _swarm(case, out):
             b = script[k % len(script)]
             if b == "raise":
                 from pbt.props._exc import make
-                raise make(case.get("exc", 0), "worker crashed")
+                thrown.append(make(case.get("exc", 0), "worker crashed"))
+                raise thrown[-1]
             if b == "repeat":
                 o = "still thinking"
             elif b == "success":
@@ -272,7 +290,7 @@ def _swarm(case, out):
                            max_steps_per_worker=case["max_steps"], max_regenerations=case["max_regen"], silent=True)
     out.label("swarm")
     mg, ms = case["max_regen"], case["max_steps"]
-    if case.get("again"):
+    for _w in range(int(case.get("again") or 0)):
         try:
             sw.supervise("warm-up")
         except Exception:
@@ -282,7 +300,7 @@ def _swarm(case, out):
     try:
         res = sw.supervise("task")
     except Exception as e:
-        if "worker crashed" in str(e):
+        if _ours(e, thrown):
             out.label("worker-exception-propagated")
             res = None
         else:
@@ -354,7 +372,7 @@ def _tools(case, out):
     nuc = Nucleus(provider=Provider())
     mi = case["max_iter"]
     out.label("tools")
-    if case.get("again"):
+    for _w in range(int(case.get("again") or 0)):
         try:
             nuc.transcribe_with_tools("warm-up", mito, max_iterations=mi, auto_execute=case["auto"])
         except Exception:
